@@ -1,17 +1,89 @@
 #!/usr/bin/env python3
-"""setup_cmd: offline. Warms dependency build caches under /verif/.cache (nothing derived from
-/repo/src is kept) and checks that the tools the checks need are present."""
-import os, shutil, subprocess, sys
+"""setup_cmd: offline. Warms DEPENDENCY build caches under /verif/.cache (nothing derived from
+/repo/src is kept: the crate under verification is rebuilt from /repo on every check) and
+checks that the tools the checks need are present."""
+import os, shutil, subprocess, sys, time
 sys.path.insert(0, os.path.dirname(os.path.dirname(os.path.abspath(__file__))))
-from vlib import scratch
+from vlib import scratch, replay, gen_range, gen_ae, gen_serve, gen_precond
+
+
+def gen_all(hdir):
+    gen_range.generate("quick", os.path.join(hdir, "range_gen.rs"), os.path.join(hdir, "range_meta.json"))
+    gen_ae.generate("quick", os.path.join(hdir, "ae_gen.rs"), os.path.join(hdir, "ae_meta.json"))
+    gen_serve.generate("quick", os.path.join(hdir, "serve_gen.rs"), os.path.join(hdir, "serve_meta.json"))
+    gen_precond.generate("quick", os.path.join(hdir, "precond_gen.rs"), os.path.join(hdir, "precond_meta.json"))
+
+
+def warm_kani(features):
+    name = "kani-target-shim" + ("-" + "-".join(features) if features else "")
+    dst = os.path.join(scratch.CACHE, name)
+    ws = scratch.Workspace("shim", {"body.rs": "body_h.rs"}, features=features, gen=gen_all)
+    try:
+        with open(os.devnull, "w") as dn:
+            ws.prepare_lock(dn)
+        tgt = os.path.join(ws.dir, "target")
+        args = ["cargo", "kani", "--harness", "body::verif_h::body_from", "--exact", "-Z", "stubbing", "-Z", "restrict-vtable",
+                "--target-dir", tgt, "--no-memory-safety-checks", "--no-assertion-reach-checks", "-Z", "unstable-options"]
+        if features:
+            args += ["--features", ",".join(features)]
+        t0 = time.time()
+        r = subprocess.run(args, cwd=ws.crate, env=scratch.ENV, stdout=subprocess.PIPE, stderr=subprocess.STDOUT, text=True)
+        ok = "VERIFICATION:- SUCCESSFUL" in r.stdout
+        print("warm %s: %s in %.0fs" % (name, "ok" if ok else "FAILED", time.time() - t0))
+        if not ok:
+            print(r.stdout[-3000:])
+            return False
+        # keep only dependency artifacts: drop everything of the crate under verification
+        for root, dirs, files in os.walk(tgt):
+            for f in files:
+                if "http_serve" in f or "http-serve" in f:
+                    os.remove(os.path.join(root, f))
+            for d in list(dirs):
+                if d.startswith("http-serve-") or d.startswith("http_serve-"):
+                    shutil.rmtree(os.path.join(root, d), ignore_errors=True)
+        shutil.rmtree(dst, ignore_errors=True)
+        shutil.copytree(tgt, dst, symlinks=True)
+        return True
+    finally:
+        ws.cleanup()
+
+
+def warm_replay():
+    with open(os.devnull, "w") as dn:
+        rp = replay.Replayer(dn)
+        try:
+            ok = rp.build("debug") is not None and rp.build("release") is not None
+            print("warm replay-target:", "ok" if ok else "FAILED")
+            if ok:
+                tgt = rp.target
+                for prof in ("debug", "release"):
+                    for sub in ("", "deps", ".fingerprint", "incremental", "build"):
+                        d = os.path.join(tgt, prof, sub)
+                        if not os.path.isdir(d):
+                            continue
+                        for f in os.listdir(d):
+                            if f.startswith(("hs_replay", "hs-replay", "libhttp_serve", "http_serve", "http-serve")):
+                                p = os.path.join(d, f)
+                                shutil.rmtree(p, ignore_errors=True) if os.path.isdir(p) else os.remove(p)
+                dst = replay.SEED
+                shutil.rmtree(dst, ignore_errors=True)
+                shutil.copytree(tgt, dst, symlinks=True)
+            return ok
+        finally:
+            rp.cleanup()
+
 
 def main():
     os.makedirs(scratch.CACHE, exist_ok=True)
     for tool in ["cargo-kani", "cbmc", "cargo"]:
         if shutil.which(tool) is None:
-            print("missing tool:", tool); sys.exit(1)
+            print("missing tool:", tool)
+            sys.exit(1)
     r = subprocess.run(["cargo", "kani", "--version"], env=scratch.ENV, stdout=subprocess.PIPE, stderr=subprocess.STDOUT, text=True)
     print(r.stdout.strip())
-    print("setup ok")
+    ok = warm_kani(()) and warm_kani(("dir",)) and warm_replay()
+    print("setup", "ok" if ok else "FAILED")
+    sys.exit(0 if ok else 1)
+
 
 main()
